@@ -205,6 +205,13 @@ func yieldHook(site int) {
 		blockedYield(cur, site == -2)
 		return
 	}
+	if site == -4 {
+		// an operation on an unbuffered channel of the tree: the cooperative loops cannot model the rendezvous
+		if sGran != granOp && unsupportedFn != nil {
+			unsupportedFn()
+		}
+		return
+	}
 	if site >= 0 {
 		sBlkStreak, sBlkMask = 0, 0 // a task executes a statement of the tree: nobody is deadlocked yet
 		if site < len(siteHit) {
@@ -316,6 +323,10 @@ func blockedYield(me int, mustSwitch bool) {
 
 // deadlockFn reports a deadlock among the tasks and ends the process (set by main).
 var deadlockFn func(me int, mask uint64)
+
+// unsupportedFn ends a statement-granular worker that met a construct the simulator cannot schedule inside (exit 5:
+// the coordinator repeats the batch operation-granular).
+var unsupportedFn func()
 
 // The simulated clock is the real clock plus hook.ClockOffset; in runs that ask for it the offset jumps forward
 // by anything between a millisecond and three days (code that walks a window second by second is legitimate: a month would cost it millions of iterations) at points chosen by a generator of its own (a pure function of the
